@@ -136,6 +136,16 @@ func typed(e cdEntry, props string) interface{} {
 		return f
 	case "bool":
 		return e.V == "true"
+	case "null":
+		return nil
+	case "emptystr":
+		return ""
+	case "emptymap":
+		return map[string]interface{}{}
+	case "emptylist":
+		return []interface{}{}
+	case "nestedmap":
+		return map[string]interface{}{"inner": map[string]interface{}{"deep": 1}, "other": "x"}
 	case "list":
 		l := []interface{}{}
 		if e.V != "" {
